@@ -3009,6 +3009,13 @@ def no_coeff_mutation(chk):
                 continue
             muts = lints.shared_state_mutations(fn, lambda s: s == "coeffs" or s.startswith("coeffs["))
             verdict = not muts
+            und = list(getattr(muts, "undecided", []) or [])
+            if not muts and und:
+                # possible but unestablished writes (the engine could not tell a view from a copy, or whether the alias is still live)
+                chk.ob("G2-no-shared-mutation", und[0][0] if und[0][0] is not None else fn, f"{q} vs coeffs", None,
+                       "; ".join(f"{u[1]} ({u[2]})" for u in und[:3]) + " - possible write through the coefficient array, not established",
+                       file=rel, func=q)
+                continue
             if muts:
                 # ASSUMPTION of VIOLATED: the array the kernel writes through IS the spline's own coefficient array, i.e. an entry point
                 # hands `self._coeffs` itself (not a copy) to this kernel's `coeffs`.  Read off the hand-over sites found by the dispatch
